@@ -5,7 +5,6 @@ import (
 	"sort"
 	"strings"
 	"testing"
-	"testing/synctest"
 	"time"
 
 	"github.com/aukilabs/hagall/models"
@@ -222,7 +221,7 @@ func init() {
 // Invariant: no id is outstanding twice.
 func runIDGenWorld(t *testing.T, seed uint64) *Result {
 	res := &Result{Triggers: map[string]int{}, States: map[string]bool{}, Blocks: map[string]bool{}, Stats: map[string]int{}}
-	synctest.Test(t, func(t *testing.T) {
+	inBubble(t, res, func(t *testing.T) {
 		r := simrt.NewRand(seed, "idgen")
 		pol := []string{"rand", "pct", "seq"}[r.Intn(3)]
 		s := simrt.New(simrt.Config{Seed: seed, Policy: pol, PCTDepth: 1 + r.Intn(3), PCTLen: 200})
